@@ -86,6 +86,24 @@ def _rw_job(job):
                 _, pos, ln, val = w1[0]
                 if (pos, ln) != (100, 2) or val != raw:
                     return n, ("not-exact", f"writing representable {form!r} ({unit}, raw {raw}) emitted raw {val}")
+    # a unit byte outside the two labels (the setting reads 'Unknown'): whichever of the two presentations the accessor
+    # uses, it uses the same one for reading and for writing - a value it presents is written back exactly
+    for ub in (2, 3, 128, 255):
+        blk0 = base[:33] + bytes([ub]) + base[34:]
+        for raw in range(lo + (ub % 7), hi, 53):
+            n += 1
+            st.set_status_block(blk0[:100] + raw.to_bytes(2, "big") + blk0[102:])
+            v = t.value
+            if v not in (ref_temp(raw, "C"), ref_temp(raw, "F")):
+                return n, ("read", f"raw {raw} with unit byte {ub}: value {v!r} is neither raw/18 nor (raw+320)/10")
+            st.set_status_block(blk0[:100] + ((raw * 7 + 13) % 65536).to_bytes(2, "big") + blk0[102:])
+            del spa.commands[:]
+            try:
+                t.value = v
+            except Exception as e:  # noqa
+                return n, ("write-raised", f"writing {v!r} with unit byte {ub} raised {e!r}")
+            if len(spa.commands) != 1 or spa.commands[0][1:] != (100, 2, raw):
+                return n, ("not-exact", f"unit byte {ub}: raw {raw} is presented as {v!r}, but writing {v!r} emits {spa.commands}")
     return n, None
 
 
@@ -184,6 +202,30 @@ def _heater_job(job):
             exp = tuple(ref_temp(r, unit) for r in r3)
             if got != exp:
                 return job, n, ("reading", f"unit {unit} words (set point, current, real set point) = {r3}: heater reads {got}, expected {exp}"), None
+        # a set point the client asks for that the spa does not take (command lost, clamped, or a value between two
+        # device steps that truncates onto the step already held): the heater goes on presenting the device's word
+        for raw in (540, 666):
+            blk = b0
+            for k in ("SetpointG", "DisplayedTempG", "RealSetPointG"):
+                blk = f[k].put_raw(blk, raw)
+            st.set_status_block(blk)
+            cur = ref_temp(raw, unit)
+            for ask in (cur, cur + 0.03, cur + 2.0, cur - 1.0):
+                for path in ("async", "sync"):
+                    n += 1
+                    try:
+                        if path == "async":
+                            run_async(heater.async_set_target_temperature(ask))
+                        else:
+                            heater.set_target_temperature(ask)
+                    except core.HarnessError:
+                        raise
+                    except Exception as e:  # noqa
+                        return job, n, ("set-raised", f"unit {unit}: set_target_temperature({ask}) raised {e!r}"), None
+                    st.set_status_block(blk)  # the spa still holds (and reports) the old word
+                    if heater.target_temperature != cur:
+                        return job, n, ("reading", f"unit {unit}: the device holds set point word {raw} ({cur}); after a {path} request "
+                                                   f"for {ask} that the spa did not take the heater reads {heater.target_temperature}"), None
         # unit flipped while the stored readings stay: readings, symbol and limits must all follow
         for raw in (540, 684):
             blk = b0
